@@ -34,6 +34,8 @@ def parseStmt (ws : List String) : Option Stmt :=
   | ["store", o, x] => do pure (.store (← o.toNat?) (← x.toNat?))
   | ["send", x] => x.toNat?.map .send
   | ["share", x] => x.toNat?.map .share
+  | ["vconv", x, v, input, name] => do pure (.vconv (← x.toNat?) (← v.toNat?) input name)
+  | ["join", x, f, input, name] => do pure (.join (← x.toNat?) (← f.toNat?) input name)
   | _ => none
 
 def words (s : String) : List String := (s.splitOn " ").filter (· ≠ "")
